@@ -7,7 +7,7 @@
    calls made one after the other inside one harness call — the API has no state, so each call must satisfy its own statement whatever
    was called before; a verdict of a sequence is the conjunction of the verdicts of its calls). *)
 From Coq Require Import ZArith String List Bool.
-From SID Require Import Base Str Ids Wire ZoomCore Notation.
+From SID Require Import Base Str Ids Wire ZoomCore StrSpec Notation.
 Import ListNotations.
 Open Scope string_scope.
 
@@ -262,11 +262,50 @@ Definition d_alias (args : list val) (obs : val) : verdict :=
   | _ => bad_case
   end.
 
+(* ---- the string layer itself: the four operations /repo applies to ID strings, called directly ----
+   ParseInt / Atoi: strconv.ParseInt(s, 10, 64) resp. strconv.Atoi(s) (= ParseInt(s, 10, 0), int = int64): observed the value, or VE v with the
+   value returned together with the error. corr: Str.parse (and the discarded-error value, Notation.parse_failed_value);
+   prop: StrSpec.check_parseint (reference scanner, proved = the declarative language ParseInt_accepts) *)
+Definition d_parseint (args : list val) (obs : val) : verdict :=
+  match args with
+  | [VS s] =>
+      let m := parse s in
+      let mv := match m with Some z => VZ z | None => VE (VZ (parse_failed_value s)) end in
+      match obs with
+      | VZ z => mkv (opt_Z_eqb m (Some z)) (check_parseint s (Some z)) "-" mv
+      | VE (VZ v) => mkv (opt_Z_eqb m None && (v =? parse_failed_value s)%Z) (check_parseint s None) "-" mv
+      | _ => bad_case
+      end
+  | _ => bad_case
+  end.
+(* FormatInt / Itoa: strconv.FormatInt(z, 10) resp. strconv.Itoa(int(z)); corr: Str.print; prop: parses back to z and is canonical *)
+Definition d_formatint (args : list val) (obs : val) : verdict :=
+  match args, obs with
+  | [VZ z], VS o => if int64_ok z then mkv (String.eqb (print z) o) (check_format z o) "-" (VS (print z)) else bad_case
+  | _, _ => bad_case
+  end.
+(* Split: strings.Split(s, "/"); Join: strings.Join(l, "/") *)
+Definition d_split (args : list val) (obs : val) : verdict :=
+  match args with
+  | [VS s] => match obs with
+              | VL _ => match as_LS obs with Some o => mkv (same_list (split s) o) (check_split s o) "-" (of_LS (split s)) | None => bad_case end
+              | _ => bad_case
+              end
+  | _ => bad_case
+  end.
+Definition d_join (args : list val) (obs : val) : verdict :=
+  match args, obs with
+  | [a], VS o => match as_LS a with Some l => mkv (String.eqb (join l) o) (check_join l o) "-" (VS (join l)) | None => bad_case end
+  | _, _ => bad_case
+  end.
+
 Definition base_C10 : table :=
   [("ConvertSpatialIdsToExtendedSpatialIds", fun _ => d_s2e); ("ConvertExtendedSpatialIdsToSpatialIds", fun _ => d_e2s);
    ("NotationRoundTrip", fun _ => d_roundtrip); ("ParsePrint", fun _ => d_parseprint);
    ("ConvertExtendedSpatialIDToSpatialIDs", fun _ => d_expand); ("GetVoxelIDfromSpatialID", fun _ => d_voxel);
-   ("ResetSequence", fun _ => d_resetseq); ("ObjectSetters", fun _ => d_setters); ("ObjectAliasing", fun _ => d_alias)].
+   ("ResetSequence", fun _ => d_resetseq); ("ObjectSetters", fun _ => d_setters); ("ObjectAliasing", fun _ => d_alias);
+   ("ParseInt", fun _ => d_parseint); ("Atoi", fun _ => d_parseint); ("FormatInt", fun _ => d_formatint); ("Itoa", fun _ => d_formatint);
+   ("Split", fun _ => d_split); ("Join", fun _ => d_join)].
 
 (* ---- sequences of calls made one after the other inside one harness call (the API is stateless: every call must satisfy its own
         statement whatever was called before). A call is VL (VS function :: arguments); observed: the list of the observed outputs. ---- *)
